@@ -147,7 +147,9 @@ def run(ctx):
             wn = source_names(mf, mf.blocks[wr[0][0]]['term']['args'][1])
             for p in ra:
                 kn = source_names(mf, mf.blocks[p[0]]['term']['args'][1])
-                C.check(bool(kn & wn), 'C06-MUST-rewrite', 'move_element_full|6-registered-under-rewritten-text',
+                from flow import same_value_locals as _svl
+                shared = _svl(mf, mf.blocks[p[0]]['term']['args'][1]) & _svl(mf, mf.blocks[wr[0][0]]['term']['args'][1])
+                C.check(bool(kn & wn) or bool(shared), 'C06-MUST-rewrite', 'move_element_full|6-registered-under-rewritten-text',
                         'a reference inside the moved subtree is registered in the destination under %s, not under the text written (%s): a later rename of its target will not find it' % (sorted(kn), sorted(wn)), mf.where(p))
             # the rewrite is guarded by membership of the old target in the moved subtree
             ck = calls(mf, r'HashMap::<.*>::contains_key$|HashMap<.*>::contains_key$')
